@@ -161,6 +161,8 @@ type Witness struct {
 	Kinds   []string
 	Expects []string
 	Note    string
+	// GasLimit is the block gas limit the miners chose for the step (0 = the default strategy)
+	GasLimit uint64
 }
 
 func encHex(v interface{}) string {
@@ -173,7 +175,7 @@ func encHex(v interface{}) string {
 
 // Witness materialises the current prefix plus a step.
 func (cl *Cluster) Witness(t uint32, cands []Cand, note string) *Witness {
-	w := &Witness{World: cl.WCfg, Nodes: len(cl.Nodes), Time: t, Note: note, StabAt: append([]uint32{}, cl.StabAt...)}
+	w := &Witness{World: cl.WCfg, Nodes: len(cl.Nodes), Time: t, Note: note, StabAt: append([]uint32{}, cl.StabAt...), GasLimit: cl.Nodes[0].GasLimit}
 	for _, b := range cl.Chain {
 		w.Blocks = append(w.Blocks, encHex(b))
 	}
@@ -207,6 +209,9 @@ func Rebuild(w *Witness) (*Cluster, []Cand, error) {
 		if i < len(w.StabAt) && w.StabAt[i] == b.Height() {
 			cl.StabiliseAll()
 		}
+	}
+	for _, n := range cl.Nodes {
+		n.GasLimit = w.GasLimit
 	}
 	var cands []Cand
 	for i, hx := range w.Cands {
